@@ -16,7 +16,7 @@ from ..utils import exceptions as exc
 from ..utils.compat import (ForwardRef, Literal, Self, evaluate_forward_ref, own_forward_refs,
                             get_args, get_origin, UnionType)
 from ..utils.datastructures import unprovided
-from ..utils.functional import multi, pop
+from ..utils.functional import multi, pop, copy_value
 from ..utils.transform import TypeTransformer
 from ..settings import warning_settings
 from .options import RuntimeContext
@@ -1003,17 +1003,32 @@ class Constraints:
                 pass
             else:
                 raise ValueError
-        return v
+        # the parsed value itself: not the declared constant, which may be of a tolerated other number type
+        # (a float rule with const=1) and is an object of the declaration (a list would be shared by every result)
+        return value
+
+    @classmethod
+    def _substitute(cls, value, result):
+        # a value taken from the declaration instead of the input: a fresh object,
+        # in the number type of the value it replaces (a float rule with const=Lax(1))
+        result = copy_value(result)
+        if isinstance(value, NUM_TYPES) and isinstance(result, NUM_TYPES) \
+                and not isinstance(result, bool) and type(result) is not type(value):
+            try:
+                return type(value)(result)
+            except Exception:  # noqa
+                pass
+        return result
 
     @classmethod
     def lax_const(cls, value, v):
-        return v
+        return cls._substitute(value, v)
 
     @classmethod
     def enum(cls, value, lst):
         if isinstance(lst, EnumMeta):
             # return the value instead of the enum type
-            return lst(value).value
+            return cls._substitute(value, lst(value).value)
 
         if isinstance(value, Enum):
             value = value.value
@@ -1026,13 +1041,13 @@ class Constraints:
     def lax_enum(cls, value, lst):
         if isinstance(lst, EnumMeta):
             # return the value instead of the enum type
-            return lst(value).value
+            return cls._substitute(value, lst(value).value)
 
         if isinstance(value, Enum):
             value = value.value
 
         if value not in lst:
-            return list(lst)[0]
+            return cls._substitute(value, list(lst)[0])
         return value
 
     @classmethod
@@ -1408,7 +1423,7 @@ class Rule(metaclass=LogicalType):
 
         elif type_ == Literal:
             # special for literal type
-            constraints = constraints or {}
+            constraints = dict(constraints or {})   # (the caller's dict may be the constraints of a shared Field)
             if len(args_) == 1:
                 constraints["const"] = args_[0]
             elif len(args_) > 1:
